@@ -97,6 +97,47 @@ theorem handled_cliMarks (cfg : Cfg) (e : List Mark) (t : Int) :
     simp only [h', Bool.false_eq_true, if_false]
     exact List.count_filter (by simp [h'])
 
+theorem cliMarks_tick (cfg : Cfg) {l : List Mark} (h : ∀ m ∈ l, TickMark cfg m) : cliMarks cfg l = [] := by
+  unfold cliMarks
+  rw [List.filter_eq_nil_iff]
+  intro m hm
+  rcases h m hm with rfl | rfl | ⟨t, b, rfl, hb | ht⟩
+  · simp
+  · simp
+  · simp [hb]
+  · simp [ht]
+
+theorem takeWhile_append_mem (tick : Mark) : ∀ (mk h : List Mark), tick ∈ mk →
+    (mk ++ h).takeWhile (· != tick) = mk.takeWhile (· != tick)
+  | [], _, hm => by cases hm
+  | m :: mk, h, hm => by
+    simp only [List.cons_append, List.takeWhile_cons]
+    by_cases hmt : m = tick
+    · simp [hmt]
+    · have : (m != tick) = true := by simpa using hmt
+      simp only [this, if_true]
+      rw [takeWhile_append_mem tick mk h (by rcases List.mem_cons.mp hm with h' | h'; exact absurd h'.symm hmt; exact h')]
+
+theorem sinceTick_append_notin (tick : Mark) (mk h : List Mark) (hn : tick ∉ mk) :
+    sinceTick tick (mk ++ h) = mk ++ sinceTick tick h := by
+  unfold sinceTick
+  exact List.takeWhile_append_of_pos (fun a ha => by simp; intro e; exact hn (e ▸ ha))
+
+/-- the client marks since the last tick, across a periodic section -/
+theorem cli_since_ticks (cfg : Cfg) {mk : List Mark} (hm : ∀ m ∈ mk, TickMark cfg m) (tick : Mark) (h : List Mark) :
+    cliMarks cfg (sinceTick tick (mk ++ h)) = if tick ∈ mk then [] else cliMarks cfg (sinceTick tick h) := by
+  by_cases hin : tick ∈ mk
+  · simp only [hin, if_true]
+    unfold sinceTick
+    rw [takeWhile_append_mem tick mk h hin]
+    exact cliMarks_tick cfg (fun m hm' => hm m (List.takeWhile_subset _ hm'))
+  · simp only [hin, if_false]
+    rw [sinceTick_append_notin tick mk h hin, cliMarks_append, cliMarks_tick cfg hm]; rfl
+
+theorem handled_since_mono (tick : Mark) (mk h : List Mark) (hn : tick ∉ mk) (t : Int) :
+    handled (sinceTick tick h) t ≤ handled (sinceTick tick (mk ++ h)) t := by
+  rw [sinceTick_append_notin tick mk h hn, handled_append]; omega
+
 /-! ## the Spec's table operations -/
 
 /-- a departed module -/
@@ -434,6 +475,11 @@ structure Sim (cfg : Cfg) (x : State) (a : A) : Prop where
   fail : a.fail = x.fail
   pubT : a.pubT = tallyOn [] (cliMarks cfg (sinceTick .timingTick x.hist))
   pubR : a.pubR = tallyOn [] (cliMarks cfg (sinceTick .trafficTick x.hist))
+
+/-- what one observer received since the last report is a lower bound of what was handled -/
+structure RecvOK (x : State) (a : A) : Prop where
+  t : ∀ q ∈ a.recvT, q.2 ≤ handled (sinceTick .timingTick x.hist) q.1.2
+  r : ∀ q ∈ a.recvR, q.2 ≤ handled (sinceTick .trafficTick x.hist) q.1.2
 
 theorem sim_get {cfg : Cfg} {x : State} {a : A} (h : Sim cfg x a) {u : Nat} (h1 : 1 ≤ u) (h2 : u ≤ x.nextUid) :
     ∃ am, a.get u = some am ∧ am ∈ a.mods ∧ am.uid = u := by
@@ -824,6 +870,76 @@ theorem pre_sim {x : State} {a : A} (hI : MInv cfg x) (hS : Sim cfg x a) (hx : x
     refine ⟨[], [], a1, by simp [flatSegs, hx1], NoRd.nil, (fun _ h => by cases h), hI1, hS1, RB.refl x1, hr1T, hr1R, fun T _ _ => ?_⟩
     subst hre
     simp [goCore]
+
+/-! ## the periodic section -/
+
+omit ok hfuel in
+/-- **the periodic section keeps the simulation**: `a7` is the abstract state before `Spec.tail` (the table already
+    carries the departures of the section's events `T`, the receive tallies `rT`, `rR` are bounded with respect to the
+    state `x2` before the section) -/
+theorem tail_sim {x2 : State} {a' : A} (hidle : x2.inTraffic = false) (hd : UidsDistinct x2) (hS : Sim cfg x2 a')
+    (rT rR : List ((Nat × Int) × Nat))
+    (hrT : ∀ q ∈ rT, q.2 ≤ handled (sinceTick .timingTick x2.hist) q.1.2)
+    (hrR : ∀ q ∈ rR, q.2 ≤ handled (sinceTick .trafficTick x2.hist) q.1.2) :
+    ∃ T, (ticks cfg x2).out = x2.out ++ T ∧ NoRd T ∧
+      Sim cfg (ticks cfg x2) (tailU cfg { a' with mods := depMods a'.mods (closes T), recvT := rT, recvR := rR }) ∧
+      RecvOK (ticks cfg x2) (tailU cfg { a' with mods := depMods a'.mods (closes T), recvT := rT, recvR := rR }) := by
+  obtain ⟨T, hE⟩ := ticks_ev cfg hd
+  obtain ⟨mk, hh, hmk, ht1, ht2, hnow, hbuf, hid, htT, htR, hseq, htI⟩ := ticks_acc cfg x2 hidle
+  refine ⟨T, hE.out, hE.nord, ?_, ?_⟩
+  · generalize ha7 : ({ a' with mods := depMods a'.mods (closes T), recvT := rT, recvR := rR } : A) = a7
+    have f := tailU_fields cfg a7
+    obtain ⟨f1, f2, f3, f4, f5, f6, f7, f8, f9, f10, f11, f12, f13, f14, f15⟩ := f
+    have g1 : a7.now = x2.now := by subst ha7; exact hS.now
+    have g2 : a7.tTiming = x2.tTiming := by subst ha7; exact hS.tT
+    have g3 : a7.tTraffic = x2.tTraffic := by subst ha7; exact hS.tR
+    have g4 : a7.tInfo = x2.tInfo := by subst ha7; exact hS.tI
+    have g5 : a7.seq = x2.trafficSeq := by subst ha7; exact hS.seq
+    refine ⟨by rw [f1, g1, hnow], by rw [f8, g1, g2, htT], by rw [f9, g1, g3, htR], by rw [f11, g1, g4, htI],
+      by rw [f10, g1, g3, g5, hseq], ?_, ?_, ?_, ?_, ?_, ?_⟩
+    · rw [f3]; subst ha7; exact hS.nacc.trans hE.nuid.symm
+    · rw [f2]; subst ha7
+      show (depMods a'.mods (closes T)).map (·.uid) = _
+      rw [depMods_uids, hS.uids, hE.nuid]
+    · rw [f2]; subst ha7
+      exact alive_step hS.alive hE.cons
+    · rw [f4]; subst ha7; exact hS.fail.trans hE.fail.symm
+    · rw [f12, hh, cli_since_ticks cfg hmk, g1, g2]
+      have : a7.pubT = a'.pubT := by subst ha7; rfl
+      rw [this, hS.pubT]
+      by_cases h1 : (cfg.timing && decide (x2.now - x2.tTiming > 900)) = true
+      · simp [h1, ht1.mpr h1, tallyOn]
+      · have : Mark.timingTick ∉ mk := fun hc => h1 (ht1.mp hc)
+        simp [h1, this]
+    · rw [f14, hh, cli_since_ticks cfg hmk, g1, g3]
+      have : a7.pubR = a'.pubR := by subst ha7; rfl
+      rw [this, hS.pubR]
+      by_cases h2 : x2.now - x2.tTraffic > 1000
+      · simp [h2, ht2.mpr h2, tallyOn]
+      · have : Mark.trafficTick ∉ mk := fun hc => h2 (ht2.mp hc)
+        simp [h2, this]
+  · generalize ha7 : ({ a' with mods := depMods a'.mods (closes T), recvT := rT, recvR := rR } : A) = a7
+    obtain ⟨f1, f2, f3, f4, f5, f6, f7, f8, f9, f10, f11, f12, f13, f14, f15⟩ := tailU_fields cfg a7
+    have g1 : a7.now = x2.now := by subst ha7; exact hS.now
+    have g2 : a7.tTiming = x2.tTiming := by subst ha7; exact hS.tT
+    have g3 : a7.tTraffic = x2.tTraffic := by subst ha7; exact hS.tR
+    have g6 : a7.recvT = rT := by subst ha7; rfl
+    have g7 : a7.recvR = rR := by subst ha7; rfl
+    constructor
+    · rw [f13, g1, g2, g6, hh]
+      by_cases h1 : (cfg.timing && decide (x2.now - x2.tTiming > 900)) = true
+      · simp [h1]
+      · simp only [h1, Bool.false_eq_true, if_false]
+        have hn : Mark.timingTick ∉ mk := fun hc => h1 (ht1.mp hc)
+        intro q hq
+        exact Nat.le_trans (hrT q hq) (handled_since_mono _ mk _ hn _)
+    · rw [f15, g1, g3, g7, hh]
+      by_cases h2 : x2.now - x2.tTraffic > 1000
+      · simp [h2]
+      · simp only [h2, if_false]
+        have hn : Mark.trafficTick ∉ mk := fun hc => h2 (ht2.mp hc)
+        intro q hq
+        exact Nat.le_trans (hrR q hq) (handled_since_mono _ mk _ hn _)
 
 end withcfg
 
